@@ -1,7 +1,7 @@
 """Generic check driver: build from /repo's working tree, discharge the Coq obligations,
 run the correspondence cases through the model (coqc + vm_compute), run the
 implementation-side property oracle, decide, write evidence and replays."""
-import fcntl, glob, json, os, re, shutil, subprocess, sys, time
+import fcntl, glob, json, os, re, resource, shutil, subprocess, sys, time
 from concurrent.futures import ThreadPoolExecutor
 
 ROOT = os.path.dirname(os.path.dirname(os.path.abspath(__file__)))
@@ -17,10 +17,16 @@ ENV = dict(os.environ, CARGO_NET_OFFLINE="true", CARGO_TARGET_DIR=TARGET)
 import props as P  # per-property configuration
 
 
+def _big_stack():
+    try:
+        resource.setrlimit(resource.RLIMIT_STACK, (resource.RLIM_INFINITY, resource.RLIM_INFINITY))
+    except Exception:
+        pass
+
 def sh(cmd, timeout=1800, cwd=ROOT, env=None):
     try:
         r = subprocess.run(cmd, cwd=cwd, env=env or ENV, stdout=subprocess.PIPE, stderr=subprocess.STDOUT,
-                           timeout=timeout, shell=isinstance(cmd, str))
+                           timeout=timeout, shell=isinstance(cmd, str), preexec_fn=_big_stack)
         return r.returncode, r.stdout.decode("utf-8", "replace")
     except subprocess.TimeoutExpired as e:
         return 124, (e.stdout or b"").decode("utf-8", "replace") + "\n[timeout]"
